@@ -508,7 +508,9 @@ def plans(tier):
                 ("leafvarf10", "1.0", "LeafVarF", varf, 3, ["1.0"]),
                 ("leafvarf11", "1.1", "LeafVarF", varf, 3, ["1.1"]),
                 ("mid3", "1.0", "Mid3", ab, 4, ["1.0", "1.1"]),
-                ("zero", "1.0", "Zero", abc, 3, ["1.0", "1.1"])]
+                ("zero", "1.0", "Zero", abc, 3, ["1.0", "1.1"]),
+                ("all11q", "1.1", "All11Q", ab, 5, ["1.1"]),
+                ("nestw11", "1.1", "NestW", ["a", "b", "o"], 3, ["1.1"])]
     return [("depth1", "1.0", "Depth1", ab, 5, ["1.0", "1.1"]),
             ("depth2q", "1.0", "Depth2Q", ab, 5, ["1.0", "1.1"]),
             ("depth2", "1.0", "Depth2", ab, 4, ["1.0", "1.1"]),
@@ -518,7 +520,9 @@ def plans(tier):
             ("leafvarf10", "1.0", "LeafVarF", varf, 3, ["1.0"]),
             ("leafvarf11", "1.1", "LeafVarF", varf, 3, ["1.1"]),
             ("mid3", "1.0", "Mid3", ab, 4, ["1.0", "1.1"]),
-            ("zero", "1.0", "Zero", abc, 3, ["1.0", "1.1"])]
+            ("zero", "1.0", "Zero", abc, 3, ["1.0", "1.1"]),
+            ("all11q", "1.1", "All11Q", ab, 5, ["1.1"]),
+            ("nestw11", "1.1", "NestW", ["a", "b", "o"], 4, ["1.1"])]
 
 
 def run(ctx: Ctx, collect=None, only=None):
